@@ -124,6 +124,8 @@ M = [
     ('render', 'MermaidNetwork.__src', 'pjplan/viz/mermaid/network.py', "                    res += f\"  {p.id}{{{{{p_name}}}}} --> {t.id}{{{{{t_name}}}}}\\n\"", "                    res += f\"  {p.id}{{{{{p_name}}}}} --> {t.id}{{{{{t_name}}}}}\"", 'edge-lines'),
     ('render', 'MermaidNetwork.__src', 'pjplan/viz/mermaid/network.py', "            if len(t.predecessors) == 0:", "            if len(t.predecessors) != 0:", ''),
     ('render', 'MermaidNetwork.__src', 'pjplan/viz/mermaid/network.py', "                res += f'style {t.id} {self.__dict_to_style(t.network_bar_style)}\\n'", "                res = f'style {t.id} {self.__dict_to_style(t.network_bar_style)}\\n'", 'style-lines'),
+    ('children', 'Task.__lshift__[single task]', 'pjplan/task.py', "        self.predecessors += other\n        return other", "        self.successors += other\n        return other", ''),
+    ('children', 'Task.__floordiv__[single task]', 'pjplan/task.py', "        self.children += other\n        return other", "        self.children = other\n        return other", ''),
     ('loops', '_check_loops_from_task', 'pjplan/schedule.py', "    visited_tasks.add(task.id)\n\n    for s in task.predecessors:", "    for s in task.predecessors:", 'KeyError'),
     ('loops', '_check_loops_from_task', 'pjplan/schedule.py', "    visited_tasks.remove(task.id)\n    validated.add(task.id)", "    validated.add(task.id)", 'visited-set-is-restored'),
     ('loops', '_check_loops_from_task', 'pjplan/schedule.py', "    visited_tasks.remove(task.id)\n    validated.add(task.id)", "    visited_tasks.remove(task.id)\n    validated.remove(task.id)", 'KeyError'),
